@@ -87,6 +87,14 @@ def monitorSign (prop : String) (res : Sign.Result) (isRemote : Bool) (keyMatche
             | none => pure ()
         | none => pure ()
       return none
+    if prop == "C02" then
+      -- the algorithm the produced envelope declares is the one the signer's leaf key dictates
+      if !keyMatchesLeaf then return none
+      let v ← fld impl "verified"
+      if !(← fldBool v "ok") then return some "produced_envelope_does_not_verify"
+      let got ← contentOfJson (← fld v "content")
+      if got.alg != c.alg then return some "declared_algorithm_not_the_leaf_key's"
+      return none
     if prop != "C08" then return none
     -- a signer whose private key is not the key of its own leaf certificate is outside the valid requests
     if !keyMatchesLeaf then return none
@@ -118,7 +126,8 @@ def monitorSign (prop : String) (res : Sign.Result) (isRemote : Bool) (keyMatche
       | none => pure ()
     return none
   | .err _ _ =>
-    if iok then return (if prop == "C16" || prop == "C03" then some "invalid_request_produced_an_envelope" else none)
+    if iok then return (if prop == "C16" || prop == "C03" then some "invalid_request_produced_an_envelope"
+                        else if prop == "C02" then some "signer_accepted_though_the_model_rejects_its_key_or_announced_algorithm" else none)
     if prop != "C16" then return none
     if (fldOpt impl "bytes_with_error").isSome then return some "bytes_returned_with_error"
     if (fldOpt impl "object_shows_after_error").isSome then return some "failed_request_observable_on_the_object"
